@@ -223,6 +223,41 @@ contract('bycycle.plts.cyclepoints.plot_cyclepoints_df', cases=_df_cases(), rais
 PANEL_T = "call_arg('neurodsp.plts.plot_time_series', 'times')"
 PANEL_S = "call_arg('neurodsp.plts.plot_time_series', 'sigs')"
 
+def _step_cases():
+    """interp=False: each cycle's value is drawn as a step from its opening to its closing side extremum"""
+    from .features_burst import shape_frame_type
+    from .burst import FEATS
+    out = []
+    for centre in ('peak', 'trough'):
+        side = 'trough' if centre == 'peak' else 'peak'
+        for param in ('amp_fraction', 'monotonicity'):
+            cols = dict(shape_frame_type(centre)[1])
+            cols.update({f: XR for f in FEATS})
+            cols['is_burst'] = BOOL
+            L, N = "df_features['sample_last_%s']" % side, "df_features['sample_next_%s']" % side
+            out.append(dict(
+                label='%s-centred,%s,xlim=None,interp=False' % (centre, param),
+                params={'df_features': ('frame', cols), 'sig': ('arr', REAL), 'fs': REAL, 'burst_param': ('const', param),
+                        'thresh': REAL, 'xlim': 'none', 'interp': ('const', False), 'ax': 'opaque', 'kwargs': KWP},
+                requires=["fs > 0", "len(sig) >= 2",
+                          "forall(i, 0 <= i < len(df_features), 0 <= {L}[i] and {L}[i] < {N}[i] and {N}[i] < len(sig))".format(L=L, N=N)],
+                loops={1: dict(index='k', regrown={'side_times': REAL, 'side_param': XR}, invariant=[
+                    "len(side_times) == 2 * k and len(side_param) == 2 * k",
+                    "forall(r, 0 <= r < k, side_times[2 * r] == {L}[r] / fs and side_times[2 * r + 1] == {N}[r] / fs)".format(L=L, N=N),
+                    "forall(r, 0 <= r < k, same(side_param[2 * r], df_features['{p}'][r]) and "
+                    "same(side_param[2 * r + 1], df_features['{p}'][r]))".format(p=param)]),
+                       2: dict(index='k2', invariant=[])},
+                ensures=["result is None",
+                         "len({T}[0]) == 2 * len(df_features) and forall(r, 0 <= r < len(df_features), "
+                         "{T}[0][2 * r] == {L}[r] / fs and {T}[0][2 * r + 1] == {N}[r] / fs)".format(T=PANEL_T, L=L, N=N),
+                         "len({S}[0]) == 2 * len(df_features) and forall(r, 0 <= r < len(df_features), "
+                         "same({S}[0][2 * r], df_features['{p}'][r]) and same({S}[0][2 * r + 1], df_features['{p}'][r]))".format(
+                             S=PANEL_S, p=param),
+                         "{T}[1][0] == 0 and {T}[1][1] == (len(sig) - 1) / fs".format(T=PANEL_T),
+                         "{S}[1][0] == thresh and {S}[1][1] == thresh".format(S=PANEL_S)]))
+    return out
+
+
 def _param_cases():
     from .features_burst import shape_frame_type
     from .burst import FEATS
@@ -256,7 +291,7 @@ def _param_cases():
     return out
 
 
-contract('bycycle.plts.burst.plot_burst_detect_param', cases=_param_cases(), raises={'ValueError': "fs < 0"}, modifies=['ax'])
+contract('bycycle.plts.burst.plot_burst_detect_param', cases=_param_cases() + _step_cases(), raises={'ValueError': "fs < 0"}, modifies=['ax'])
 
 
 # ------------------------------------------------------------------------------------------------ plot_burst_detect_summary (experiment)
@@ -300,16 +335,17 @@ def _summary_cases():
     from .features_burst import shape_frame_type
     from .burst import FEATS
     out = []
-    for centre, only in (('peak', True), ('trough', True), ('peak', False), ('trough', False)):
+    for centre, only, interp in (('peak', True, True), ('trough', True, True), ('peak', False, True), ('trough', False, True),
+                                 ('peak', False, False), ('trough', False, False)):
         side = 'trough' if centre == 'peak' else 'peak'
         cols = dict(shape_frame_type(centre)[1])
         cols.update({f: XR for f in FEATS})
         cols['is_burst'] = BOOL
         out.append(dict(
-            label='%s-centred,xlim=None,only-result=%s' % (centre, only),
+            label='%s-centred,xlim=None,only-result=%s,interp=%s' % (centre, only, interp),
             params={'df_features': ('frame', cols), 'sig': ('arr', REAL), 'fs': REAL,
                     'threshold_kwargs': ('dictp', {'amp_fraction_threshold': REAL, 'monotonicity_threshold': REAL}), 'xlim': 'none',
-                    'figsize': ('tuple', [INT, INT]), 'plot_only_result': ('const', only), 'interp': ('const', True)},
+                    'figsize': ('tuple', [INT, INT]), 'plot_only_result': ('const', only), 'interp': ('const', interp)},
             requires=["fs > 0", "len(sig) >= 2",
                       "forall(i, 0 <= i < len(df_features), 0 <= df_features['sample_%s'][i] and "
                       "df_features['sample_%s'][i] < len(sig))" % (centre, centre),
